@@ -14,6 +14,7 @@ emitted (log2 / log10 evaluated in Python from that exact rational).
 
 Python here only converts exact values to floats, drives pyphysim and compares."""
 import math
+import os
 from concurrent.futures import ThreadPoolExecutor
 from fractions import Fraction
 
@@ -25,7 +26,9 @@ from ..core import pool_map
 MODULE = "chan/Sinr.tla"
 TOL = 1e-9
 DEVS = ["OwnStreamNotSubtracted", "NoiseNotFiltered", "ExtIntPowerIgnored", "JpRowsOfOtherUser",
-        "PathlossIgnored", "ConjMissing", "SolverScalesByP"]
+        "PathlossIgnored", "ConjMissing", "SolverScalesByP", "ListPrecodersScaledAlongStreams"]
+# the one flag that is an observed deviation of /repo (found by this check); id of the finding
+F_LIST = "ListPrecodersScaledAlongStreams"
 INVARIANTS = ["TypeOK", "NonNegative", "ScaleInvariant", "QHermitianPSD", "QIsSumOfLinks", "DenIsQuadraticForm",
               "BIsQPlusOwn", "AlgMatches", "SolverZeroForcing", "SolverAgrees", "SolverAlgMatches", "CapacityTerms"]
 EXH_COUNT = 3888  # = ExhCount of the specification
@@ -64,7 +67,8 @@ THOROUGH_COUNTS = {1: 160, 2: 160, 3: 120, 4: 120, 5: 160, 6: 120, 7: 160, 8: 12
                    10: 600, 11: 400, 12: 300, 13: 400, 14: 300, 15: 400, 16: 300, 17: 300}
 # where each deviation flag is exposed (configuration index range, cases)
 DEV_WHERE = {"OwnStreamNotSubtracted": (1, 1), "NoiseNotFiltered": (1, 1), "ExtIntPowerIgnored": (5, 6),
-             "JpRowsOfOtherUser": (7, 8), "PathlossIgnored": (1, 3), "ConjMissing": (1, 1), "SolverScalesByP": (1, 2)}
+             "JpRowsOfOtherUser": (7, 8), "PathlossIgnored": (1, 3), "ConjMissing": (1, 1), "SolverScalesByP": (1, 2),
+             "ListPrecodersScaledAlongStreams": (2, 2)}
 
 
 def model(clo, chi, lo, hi, seed, dev=(), emit=True):
@@ -160,12 +164,14 @@ def build_channel(inp):
 
 
 def run_case(case):
-    """Execute one emitted case on the real classes.  Returns (comparisons, [violation texts])."""
+    """Execute one emitted case on the real classes.
+    Returns (comparisons, [violation texts], [texts with the signature of finding F_LIST])."""
     inp, out = case["inp"], case["out"]
     K, ns, nr = inp["K"], inp["ns"], inp["nr"]
     ext = len(inp["nte"]) > 0
     jp = inp["jp"]
     bad = []
+    known = []
     n = [0]
 
     def cmp(what, got, want):
@@ -198,7 +204,7 @@ def run_case(case):
     try:
         ch = build_channel(inp)
     except Exception as ex:
-        return 1, [f"building the channel object raised {type(ex).__name__}: {ex}"]
+        return 1, [f"building the channel object raised {type(ex).__name__}: {ex}"], []
 
     pa = [float(_rat(a)) for a in inp["pa"]]
     F = [_mat(inp["F"][k]) for k in range(K)]
@@ -310,13 +316,26 @@ def run_case(case):
                 got = guarded("solver.calc_remaining_interference_percentage", lambda: s.calc_remaining_interference_percentage(k))
                 if got is not None:
                     cmp(f"(rel) solver.calc_remaining_interference_percentage[user {k}]", got, want)
+        # the same solver fed with Python LISTS (documented input type of set_precoders / set_receive_filters).
+        # A mismatch here - and only here - has the signature of finding ListPrecodersScaledAlongStreams.
+        def with_lists():
+            sl = _Solver.get()(ch)
+            sl.set_precoders(F=[f.copy() for f in F], P=P.copy())
+            sl.set_receive_filters(W=[u.copy() for u in U])
+            return sl.calc_SINR()
+        mark = len(bad)
+        got = guarded("solver.calc_SINR (precoders / filters given as lists)", with_lists)
+        if got is not None:
+            cmp_rows("solver.calc_SINR (precoders / filters given as lists)", got, ssinr)
+        known.extend(bad[mark:])
+        del bad[mark:]
         # W -> c*W must not change the solver's SINR either
         s2 = guarded("IASolverBaseClass with rescaled W", lambda: make(1 - variant, [sc * u for u in U]))
         if s2 is not None:
             got = guarded("solver.calc_SINR rescaled W", s2.calc_SINR)
             if got is not None:
                 cmp_rows("solver.calc_SINR with W rescaled by %r" % (sc,), got, ssinr)
-    return n[0], bad
+    return n[0], bad, known
 
 
 def _run_case_safe(case):
@@ -366,7 +385,9 @@ def run(ctx):
         cfg, defs = model(clo, chi, 1, 12, seed, dev=[dev], emit=False)
         return tlc.run(MODULE, cfg, defs=defs, heap="1g")
 
-    with ThreadPoolExecutor(14) as ex:
+    # TLC processes run in threads (each single-worker); VERIF_PROCS throttles them on a shared machine
+    nthreads = max(1, min(14, int(os.environ.get("VERIF_PROCS", "0") or 0) or 14))
+    with ThreadPoolExecutor(nthreads) as ex:
         futs = [ex.submit(tlc_job, j) for j in jobs]
         dfuts = [(d, ex.submit(dev_job, d)) for d in DEVS]
         runs = [f.result() for f in futs]
@@ -397,8 +418,10 @@ def run(ctx):
     res = pool_map(_run_case_safe, cases, chunksize=max(1, len(cases) // 128))
     comparisons = 0
     solver_cases = 0
-    for case, (ncmp, bad) in zip(cases, res):
+    for case, (ncmp, bad, known) in zip(cases, res):
         comparisons += ncmp
+        if known:
+            ctx.finding(F_LIST, f"case {case['inp']['id']}: " + "; ".join(known[:2]), {"case": case, "mismatches": known[:6]})
         solver_cases += 1 if case["out"]["sol"]["ok"] else 0
         ctx.ok(key=f"{seed}:{case['inp']['id'][0]}:{case['inp']['id'][1]}")
         if bad:
@@ -421,8 +444,10 @@ def run(ctx):
 def replay(ctx, data):
     c = data["case"]
     case = c["case"]
-    ncmp, bad = _run_case_safe(case)
+    ncmp, bad, known = _run_case_safe(case)
     ctx.ok(key=str(case["inp"]["id"]))
     ctx.notes["comparisons"] = ncmp
+    if known:
+        ctx.finding(F_LIST, f"case {case['inp']['id']}: " + "; ".join(known[:2]), {"case": case, "mismatches": known[:6]})
     if bad:
         ctx.violation(f"case {case['inp']['id']}: " + "; ".join(bad[:3]), {"case": case, "mismatches": bad[:10]})
